@@ -38,9 +38,9 @@ def run(ctx):
         res.add_sample({"ping_timeout,pong_timeout": o["config"], "harness_lag_s": o["lag"], "peers": o["peers"][:4]})
     res.extra["configurations"] = configs
     res.extra["per_config"] = [{"config": o["config"], "lag": o.get("lag"), "peers": o["peers"]} for o in outs]
-    res.rule = ("real time, (ping_timeout, pong_timeout) in %s (includes pong >= ping); 32 clients per configuration registered at "
+    res.rule = ("real time, (ping_timeout, pong_timeout) in %s (includes pong >= ping); 34 clients per configuration registered at "
                 "staggered phases with response patterns always / never / stops after 2 / late but within pong_timeout / later than ping_timeout but within pong_timeout / later "
-                "than pong_timeout / wrong token / unsolicited PONGs / silent on PING but chatting / registering later than ping_timeout after connecting, then answering (or then silent) / re-negotiating capabilities (CAP LS, REQ, END) in mid-session while answering / one late PONG after the second PING (pong_timeout > ping_timeout), then silence / a capability negotiation opened in mid-session and never closed (CAP LS or REQ without END), then silent or answering / not reading while a helper floods it until its handler blocks in a write across the pong deadline, the late PONG queued behind (racy outcome: only aborts and clean-up are judged); every client also sends its "
+                "than pong_timeout / wrong token / unsolicited PONGs / silent on PING but chatting / registering later than ping_timeout after connecting, then answering (or then silent) / re-negotiating capabilities (CAP LS, REQ, END) in mid-session while answering / one late PONG after the second PING (pong_timeout > ping_timeout), then silence / a capability negotiation opened in mid-session and never closed (CAP LS or REQ without END), then silent or answering / answering in the older multi-parameter forms (PONG <server> :<token>, PONG <token> <server>, ...) / not reading while a helper floods it until its handler blocks in a write across the pong deadline, the late PONG queued behind (racy outcome: only aborts and clean-up are judged); every client also sends its "
                 "own PINGs; rules on the timestamped socket events: own PING answered by PONG with the same token, a client that "
                 "answers every server PING is never dropped during >= 4 cycles, at least floor(T/ping)-1 server PINGs (bounded "
                 "progress), a silent client gets ERROR+EOF no later than first unanswered PING + pong_timeout + slack (1 s + "
